@@ -3,18 +3,28 @@
 regen():      re-extracts (Python `ast`, no import of the code) from the CURRENT source the digest sizes
               (hash.py *_SIZE and which one every hashing site uses), the language prefix bytes, the cut of
               an extended key, the native-script type tags and field orders, the CIP-14 hrp / size / operand
-              order, the script address header constants and the shape of the two builder sites
+              order, the script address header constants, the shape of the two builder sites, HOW the identifiers
+              are exposed (decorators: @property = recomputed at every read, @cached_property = remembered; any
+              other decorator on a hashing function / accessor fails closed) and the key order of the keyed fields
               -> coq/gen/IdsGen.v.  props/C17.v proves `gen_cfg = spec_cfg` (C17_source_constants).
 correspond(): drives the real library on every identifier kind; inside coqc the model (with the
               regenerated constants) is compared with the library, and the specification's digests are
               compared with the library's identifiers over the library's own serialized bytes.
               BLAKE2b inside coqc is a per-case lookup table filled here with hashlib.blake2b.
+              STATE: `seq` cases let ONE real object (transaction body inside a transaction, auxiliary data, native
+              script, typed datum) live through a generated sequence of identifier reads (every accessor), in-place
+              edits, deep copies, re-encodings, re-wraps and re-signings (corpus/C17.json first, then random); after
+              every step the object's serialization, at every read the container the library would ship and the
+              identifier it answers are recorded.  Inside coqc the state machine of coq/theories/IdsSeq.v replays the
+              sequence (correspondence: same serialization after every step, same answer at every read) and the
+              oracle demands of every read: answer = specified digest of the bytes cut from the container shipped
+              at that moment.
 """
 import ast, hashlib, json, os
 from lib import common as C
 
 PID = 'C17'
-TARGETS = ['props/C17.vo', 'theories/IdsOracle.vo']
+TARGETS = ['theories/IdsOracle.vo', 'props/C17.vo']
 LEVEL = 'proof'
 GEN_OBLIGATIONS = []
 KNOWN_REGIONS = []          # regions reported to the coordinator and not (yet) in known_findings.json
@@ -30,7 +40,15 @@ MANIFEST = dict(
          'chain-context paths) and a datum only if its hash equals the datum hash; the built body carries H 32 of exactly the '
          'auxiliary data shipped, None when there is none. Constants (sizes, prefixes, cut, tags, hrp) are regenerated from the '
          'source and proved equal to the specification. Correspondence on the real objects incl. byte slices cut from the '
-         'library\'s own serializations (transaction, witness set, outputs).',
+         'library\'s own serializations (transaction, witness set, outputs). '
+         'STATE (IdsSeq.v): a state machine over (serialized item, values remembered by memoised accessors) with operations read '
+         '(accessor chain tx.id -> body.id -> body.hash()), in-place edit by path (set/delete keyed field, append, replace), '
+         're-encode, deep copy, re-wrap, neutral; theorem C17_sequence_ids: after EVERY operation sequence from every initial '
+         'object, a read through any accessor is the specified digest of the item the edits alone produce (needs the regenerated '
+         'memoisation flags to be false = part of C17_source_constants; with a flag set the statement is refuted by vm_compute: '
+         'stale after read-edit-read, carried by deep copy, healed by re-encoding); C17_sequence_reread_differs: under '
+         'collision-freeness an edit that changes the item changes every later read. Correspondence + oracle on generated '
+         'lives of real bodies / auxiliary data / native scripts / typed datums.',
     note='Trusted: Coq kernel+vm_compute; hashlib.blake2b (fills the lookup table; which message is hashed is decided in Coq); '
          'hand model Ids.v tied by regenerated constants + correspondence; Cbor.v decoder used as the byte walker; driver. '
          'H_inj (collision-freeness) is a hypothesis of the separation/binding theorems only. No axioms.',
@@ -44,6 +62,9 @@ TRUSTED = [
     'coq/theories/Cbor.v decoder `dec` used to cut items out of the library\'s bytes (round trip proved in CborProofs.v); '
     'own bech32 encoder in IdsOracle.v written from BIP-173',
     'tools/impl/ids_driver.py (calls the real pycardano API), generator in tools/props/c17.py',
+    'sequences: the path/edit a driver operation corresponds to is computed by the generator (c17.py gen_seq_*); values of '
+    'edits are standalone serializations (own encoders for ints, hashes, inputs, native scripts; a FRESH object\'s to_cbor() '
+    'for outputs and metadata values); a wrong path shows up as a correspondence mismatch, not as a pass',
 ]
 ASSUMPTIONS = [
     'H_inj H n (no two messages with one BLAKE2b-n digest) is a hypothesis of C17_separation, C17_tx_id_binds and '
@@ -51,6 +72,11 @@ ASSUMPTIONS = [
     'an ordinary (non-extended) verification key object holds 32 bytes (VerificationKey.hash hashes the whole payload)',
     'native-script integers are unsigned (< 2^64 for the injectivity theorem); bech32 is abstract in the theorems',
     'the id of a decoded transaction is the digest of the RE-ENCODED body (whether that equals the received bytes is C03)',
+    'sequences: what a re-encoded / deep-copied object serializes to is taken from the implementation (codec: C01/C03; on the '
+    'pinned tree copy.deepcopy drops the elements of an OrderedSet — reported; a copy that cannot be serialized is skipped '
+    'as seq:copy-defect(OrderedSet) and counted); its identifier must still be the digest of ITS bytes',
+    'sequences: memoisation is modelled as functools.cached_property does it (value in the instance __dict__: survives field '
+    'assignment and deep copy, absent from a freshly decoded object); any other decorator / accessor shape fails the translator closed',
 ]
 
 # ================================================================ translator
@@ -65,7 +91,8 @@ class Shape(Exception):
 SPEC_FULL = dict(tx_size=32, datum_size=32, aux_size=32, key_size=28, nscript_size=28, pscript_size=28, rscript_size=28,
                  pref_native=b'\x00', pref_v1=b'\x01', pref_v2=b'\x02', pref_v3=b'\x03', pref_raw=b'\x01', ext_cut=32,
                  ntypes=[0, 1, 2, 3, 4, 5], fp_size=20, fp_hrp='asset', fp_policy_first=True,
-                 addr_types=[1, 3, 5, 7], nets=[0, 1], aux_falsy=False)
+                 addr_types=[1, 3, 5, 7], nets=[0, 1], aux_falsy=False,
+                 memo_body_id=False, memo_tx_id=False, body_keys=[0, 1, 2], alonzo_keys=[0, 1, 2, 3, 4])
 
 
 def _parse(rel):
@@ -107,6 +134,44 @@ def _single_return(fn):
     if len(body) != 1 or not isinstance(body[0], ast.Return):
         raise Shape(f'{fn.name}: expected a single return statement')
     return body[0].value
+
+
+def _decos(fn):
+    return [ast.unparse(d) for d in fn.decorator_list]
+
+
+def _plain(fn, where):
+    """a hashing function / method must be an ordinary one: any decorator (a cache, a wrapper) is a shape the model does not have"""
+    if _decos(fn):
+        raise Shape(f'{where}: unexpected decorator(s) {_decos(fn)}')
+
+
+def _memo_of(fn, where):
+    """an identifier exposed as an attribute: @property = recomputed at every read, @cached_property = remembered"""
+    d = _decos(fn)
+    if d == ['property']:
+        return False
+    if d in (['cached_property'], ['functools.cached_property']):
+        return True
+    raise Shape(f'{where}: decorator(s) {d} not understood (expected @property)')
+
+
+def _field_keys(cl):
+    """integer `key` metadata of the dataclass fields of a MapCBORSerializable, in declaration order"""
+    keys = []
+    for s_ in cl.body:
+        if isinstance(s_, ast.AnnAssign) and isinstance(s_.value, ast.Call) and ast.unparse(s_.value.func) == 'field':
+            md = [k.value for k in s_.value.keywords if k.arg == 'metadata']
+            if len(md) != 1 or not isinstance(md[0], ast.Dict):
+                raise Shape(f'{cl.name}.{ast.unparse(s_.target)}: field metadata not understood')
+            kv = {ast.unparse(a): b for a, b in zip(md[0].keys, md[0].values)}
+            kk = kv.get("'key'")
+            if not (isinstance(kk, ast.Constant) and isinstance(kk.value, int) and 0 <= kk.value < 2 ** 32):
+                raise Shape(f'{cl.name}.{ast.unparse(s_.target)}: key is not a small unsigned integer literal')
+            keys.append(kk.value)
+        elif isinstance(s_, ast.AnnAssign) and not ast.unparse(s_.annotation).startswith('ClassVar'):
+            raise Shape(f'{cl.name}.{ast.unparse(s_.target)}: a field without key metadata')
+    return keys
 
 
 def const_bytes(node):
@@ -194,10 +259,23 @@ def extract():
         if ast.unparse(b.args[0]) != 'self.to_cbor()' or ast.unparse(_single_return(f)) != ast.unparse(b):
             raise Shape('TransactionBody.hash: expected `return blake2b(self.to_cbor(), ...)`')
         g['tx_size'] = _size_of(b, tmod, sizes, 'TransactionBody.hash')
+        _plain(f, 'TransactionBody.hash')
         if ast.unparse(_single_return(_fn(body_cls, 'id'))) != 'TransactionId(self.hash())':
             raise Shape('TransactionBody.id')
         if ast.unparse(_single_return(_fn(_cls(tmod, 'Transaction'), 'id'))) != 'self.transaction_body.id':
             raise Shape('Transaction.id')
+        # how the two ids are exposed (recomputed / remembered), and nothing else intercepts attribute access
+        g['memo_body_id'] = _memo_of(_fn(body_cls, 'id'), 'TransactionBody.id')
+        g['memo_tx_id'] = _memo_of(_fn(_cls(tmod, 'Transaction'), 'id'), 'Transaction.id')
+        for cl in (body_cls, _cls(tmod, 'Transaction')):
+            for s_ in cl.body:
+                if isinstance(s_, ast.FunctionDef) and s_.name in ('__getattr__', '__getattribute__', '__setattr__', '__deepcopy__',
+                                                                   '__copy__', '__reduce__', '__reduce_ex__', '__getstate__'):
+                    raise Shape(f'{cl.name}.{s_.name}: attribute / copy protocol overridden')
+        if [ast.unparse(b_) for b_ in body_cls.bases] != ['MapCBORSerializable']:
+            raise Shape('TransactionBody bases')
+        # keyed fields are emitted in declaration order: the model inserts a newly set field in ascending key order
+        g['body_keys'] = _field_keys(body_cls)
 
     def site_1():
         # --- plutus: datum hash, script hash, prefixes
@@ -207,7 +285,12 @@ def extract():
                 ast.unparse(_single_return(f)) != f'DatumHash({ast.unparse(b)})':
             raise Shape('datum_hash: expected DatumHash(blake2b(cbor2.dumps(datum, default=default_encoder), ...))')
         g['datum_size'] = _size_of(b, pmod, sizes, 'datum_hash')
+        _plain(f, 'datum_hash')
+        ph = _fn(_cls(pmod, 'PlutusData'), 'hash'); _plain(ph, 'PlutusData.hash')
+        if ast.unparse(_single_return(ph)) != 'datum_hash(self)':
+            raise Shape('PlutusData.hash: expected `return datum_hash(self)`')
         f = _fn(pmod, 'script_hash')
+        _plain(f, 'script_hash'); _plain(_fn(pmod, 'plutus_script_hash'), 'plutus_script_hash')
         stmts = [s for s in f.body if not (isinstance(s, ast.Expr) and isinstance(s.value, ast.Constant))]
         if len(stmts) != 1 or not isinstance(stmts[0], ast.If):
             raise Shape('script_hash: expected one if/elif chain')
@@ -261,6 +344,7 @@ def extract():
         if [ast.unparse(b_) for b_ in ncl.bases] != ['ArrayCBORSerializable']:
             raise Shape('NativeScript bases')
         f = _fn(ncl, 'hash'); b = _one_blake(f)
+        _plain(f, 'NativeScript.hash')
         assigns = {ast.unparse(s.targets[0]): ast.unparse(s.value) for s in f.body if isinstance(s, ast.Assign) and len(s.targets) == 1}
         if assigns.get('cbor_bytes') not in ('cast(bytes, self.to_cbor())', 'self.to_cbor()'):
             raise Shape('NativeScript.hash: cbor_bytes is not self.to_cbor()')
@@ -304,7 +388,9 @@ def extract():
         if ast.unparse(b.args[0]) != 'self.payload' or ast.unparse(_single_return(f)) != f'VerificationKeyHash({ast.unparse(b)})':
             raise Shape('VerificationKey.hash: expected VerificationKeyHash(blake2b(self.payload, ...))')
         g['key_size'] = _size_of(b, kmod, sizes, 'VerificationKey.hash')
+        _plain(f, 'VerificationKey.hash')
         xcl = _cls(kmod, 'ExtendedVerificationKey')
+        _plain(_fn(xcl, 'hash'), 'ExtendedVerificationKey.hash'); _plain(_fn(xcl, 'to_non_extended'), 'to_non_extended')
         if ast.unparse(_single_return(_fn(xcl, 'hash'))) != 'self.to_non_extended().hash()':
             raise Shape('ExtendedVerificationKey.hash')
         r = _single_return(_fn(xcl, 'to_non_extended'))
@@ -338,6 +424,8 @@ def extract():
         if ast.unparse(b.args[0]) != 'self.to_cbor()' or ast.unparse(_single_return(f)) != f'AuxiliaryDataHash({ast.unparse(b)})':
             raise Shape('AuxiliaryData.hash: expected AuxiliaryDataHash(blake2b(self.to_cbor(), ...))')
         g['aux_size'] = _size_of(b, mmod, sizes, 'AuxiliaryData.hash')
+        _plain(f, 'AuxiliaryData.hash')
+        g['alonzo_keys'] = _field_keys(_cls(mmod, 'AlonzoMetadata'))
         if ast.unparse(_single_return(_fn(acl, 'to_primitive'))) != 'self.data.to_primitive()':
             raise Shape('AuxiliaryData.to_primitive')
         g['aux_falsy'] = any(isinstance(s, ast.FunctionDef) and s.name in ('__len__', '__bool__') for s in acl.body)
@@ -354,6 +442,7 @@ def extract():
         else:
             raise Shape('encode_asset: hashed expression ' + a0)
         g['fp_size'] = _size_of(b, cmod, sizes, 'encode_asset')
+        _plain(f, 'encode_asset')
         asg = [s for s in f.body if isinstance(s, ast.Assign) and s.value is b]
         rets = _returns(f)
         if len(asg) != 1 or len(rets) != 1 or not isinstance(rets[0].value, ast.Call) or ast.unparse(rets[0].value.func) != 'encode' \
@@ -461,7 +550,12 @@ Definition gen_cfg : cfg := {{|
   c_ntypes := {nl(g['ntypes'])};
   c_fp_size := {nat(g['fp_size'])}; c_fp_hrp := {_coq_str(g['fp_hrp'])}; c_fp_policy_first := {'true' if g['fp_policy_first'] else 'false'};
   c_addr_types := {nl(g['addr_types'])}; c_nets := {nl(g['nets'])};
-  c_aux_falsy_when_empty := {'true' if g['aux_falsy'] else 'false'} |}}.
+  c_aux_falsy_when_empty := {'true' if g['aux_falsy'] else 'false'};
+  c_memo_body_id := {'true' if g['memo_body_id'] else 'false'}; c_memo_tx_id := {'true' if g['memo_tx_id'] else 'false'} |}}.
+
+(* integer keys of the dataclass fields, in declaration order (= the order MapCBORSerializable emits them in) *)
+Definition gen_body_keys : list N := {nl(g['body_keys'])}.       (* transaction.py TransactionBody *)
+Definition gen_alonzo_keys : list N := {nl(g['alonzo_keys'])}.   (* metadata.py AlonzoMetadata *)
 '''
     return t
 
@@ -1005,11 +1099,255 @@ def _native_from_bytes(b):
     return s if i == len(b) and py_enc_native(s) == b else None
 
 
-MIX = [('tx', 260), ('datum', 220), ('aux', 140), ('build', 70), ('key', 130), ('native', 170), ('plutus', 110),
+
+# ================================================================ operation sequences on one living object
+# A case {'k': 'seq', 'kind': body|aux|native|datum, 'origin': direct|decoded|builder, <initial object>, 'ops': [...],
+# 'model': [...]}: `ops` is what the driver does to the REAL object, `model[i]` is the same step as an edit of the
+# serialized item (path + edit, values as hex; None where the value is the standalone serialization the driver returns).
+BODY_KEY = {'fee': 2, 'ttl': 3, 'auxiliary_data_hash': 7, 'validity_start': 8, 'script_data_hash': 11, 'collateral': 13,
+            'required_signers': 14, 'network_id': 15, 'total_collateral': 17, 'reference_inputs': 18,
+            'current_treasury_value': 21, 'donation': 22}
+BODY_OPTIONAL = [f for f in BODY_KEY if f != 'fee']
+
+
+def py_enc_txin(t):
+    return b'\x82' + py_head(2, 32) + bytes.fromhex(t[0]) + py_head(0, t[1])
+
+
+def body_field_value(rng, f):
+    """(JSON value for the driver, standalone CBOR of that value by the harness's own encoder)"""
+    if f in ('ttl', 'validity_start'):
+        v = rng.choice([0, 1, 23, 24, 255, 256, 65535, 65536, rng.randrange(10 ** 8), 2 ** 32, 2 ** 63])
+        return v, py_head(0, v)
+    if f == 'fee':
+        v = rng.choice([0, 170000, rng.randrange(150000, 3 * 10 ** 6), 2 ** 32 + rng.randrange(1000)])
+        return v, py_head(0, v)
+    if f in ('total_collateral', 'donation', 'current_treasury_value'):
+        v = rng.randrange(1, 10 ** 12)
+        return v, py_head(0, v)
+    if f in ('script_data_hash', 'auxiliary_data_hash'):
+        b = rb(rng, 32)
+        return b.hex(), py_head(2, 32) + b
+    if f == 'network_id':
+        v = rng.choice([0, 1])
+        return v, py_head(0, v)
+    if f == 'required_signers':
+        hs = [rb(rng, 28) for _ in range(rng.choice([1, 2, 3]))]
+        return [h.hex() for h in hs], py_head(4, len(hs)) + b''.join(py_head(2, 28) + h for h in hs)
+    if f in ('collateral', 'reference_inputs'):
+        ts = [rand_txin(rng) for _ in range(rng.choice([1, 2]))]
+        return ts, py_head(4, len(ts)) + b''.join(py_enc_txin(t) for t in ts)
+    raise ValueError(f)
+
+
+def seq_skeleton(rng, levels, extra=()):
+    """the order of reads / edits / object-identity operations; every sequence ends with a read, most start with one"""
+    n = rng.choice([2, 3, 3, 4, 5, 6, 8])
+    sk = []
+    for i in range(n):
+        r = rng.random()
+        if r < 0.3 or (i == 0 and rng.random() < 0.6):
+            sk.append(('read', rng.choice(levels)))
+        elif r < 0.78:
+            sk.append(('edit',))
+        else:
+            sk.append((rng.choice(['reenc', 'copy'] + list(extra)),))
+    sk.append(('read', rng.choice(levels)))
+    return sk
+
+
+def gen_seq_body(rng):
+    import copy
+    origin = rng.choice(['direct'] * 3 + ['decoded'] * 2 + ['builder'])
+    c = {'k': 'seq', 'kind': 'body', 'origin': origin}
+    if origin == 'builder':
+        c['build'] = {'n_out': rng.choice([1, 2]), 'aux': rand_aux(rng) if rng.random() < 0.4 else None,
+                      'ttl': rng.randrange(1000, 10 ** 7) if rng.random() < 0.6 else None}
+        outs = None                                   # number and content of the outputs are the builder's business
+    else:
+        c['body'] = rand_body(rng)
+        outs = copy.deepcopy(c['body']['outputs'])
+    ops, model = [], []
+    for sk in seq_skeleton(rng, [0, 1, 1, 1, 2, 2], extra=['rewrap', 'neutral']):
+        if sk[0] != 'edit':
+            ops.append(list(sk)); model.append(None)
+            continue
+        what = rng.choice(['set', 'set', 'set', 'del', 'append_output', 'append_input', 'coin', 'coin', 'out_replace'])
+        if what in ('coin', 'out_replace') and not outs:
+            what = 'set'
+        if what == 'set':
+            f = rng.choice(list(BODY_KEY))
+            v, enc_ = body_field_value(rng, f)
+            ops.append(['set', f, v]); model.append({'p': [], 'e': ['set', BODY_KEY[f], enc_.hex()]})
+        elif what == 'del':
+            f = rng.choice(BODY_OPTIONAL)
+            ops.append(['del', f]); model.append({'p': [], 'e': ['del', BODY_KEY[f]]})
+        elif what == 'append_output':
+            o = rand_output(rng)
+            if outs is not None:
+                outs.append(copy.deepcopy(o))
+            ops.append(['append_output', o]); model.append({'p': [['k', 1]], 'e': ['append', None]})
+        elif what == 'append_input':
+            t = rand_txin(rng)
+            ops.append(['append_input', t]); model.append({'p': [['k', 0]], 'e': ['append', py_enc_txin(t).hex()]})
+        elif what == 'coin':
+            i = rng.randrange(len(outs))
+            nc = max(0, outs[i]['value'][0] + rng.choice([-1, 1]) * rng.randrange(1, 20000))
+            outs[i]['value'][0] = nc
+            ops.append(['coin', i, nc, copy.deepcopy(outs[i])]); model.append({'p': [['k', 1], ['i', i]], 'e': ['put', None]})
+        else:
+            i = rng.randrange(len(outs))
+            outs[i] = rand_output(rng)
+            ops.append(['out_replace', i, copy.deepcopy(outs[i])]); model.append({'p': [['k', 1], ['i', i]], 'e': ['put', None]})
+    c['ops'], c['model'] = ops, model
+    return c
+
+
+def gen_seq_aux(rng):
+    a = rand_aux(rng)
+    c = {'k': 'seq', 'kind': 'aux', 'origin': rng.choice(['direct', 'direct', 'decoded']), 'aux': a}
+    era = a['era']
+    labels = [l for l, _ in a['md']]
+    has_md = era != 'alonzo' or a.get('md_present', True)
+    has_ns = (era == 'allegra' and (bool(a['ns']) or a.get('ns_present'))) or (era == 'alonzo' and bool(a['ns']))
+    md_path = {'shelley': [], 'allegra': [['i', 0]], 'alonzo': [['t'], ['k', 0]]}[era]
+    ns_path = {'allegra': [['i', 1]], 'alonzo': [['t'], ['k', 1]]}.get(era)
+    ops, model = [], []
+    for sk in seq_skeleton(rng, [0]):
+        if sk[0] != 'edit':
+            ops.append(list(sk)); model.append(None)
+            continue
+        choices = (['md_set'] * 3 + (['md_del'] if labels else [])) if has_md else []
+        choices += (['ns_append'] * 2 if has_ns else []) + (['ns_set'] if era == 'alonzo' else [])
+        if not choices:
+            ops.append(['read', 0]); model.append(None)
+            continue
+        what = rng.choice(choices)
+        if what == 'md_set':
+            l = rng.choice(labels + [rng.choice([0, 1, 674, 721, 2 ** 32, rng.randrange(10 ** 6)])])
+            if l not in labels:
+                labels.append(l)
+            ops.append(['md_set', l, rand_md_val(rng, 1)]); model.append({'p': md_path, 'e': ['set', l, None]})
+        elif what == 'md_del':
+            l = rng.choice(labels); labels.remove(l)
+            ops.append(['md_del', l]); model.append({'p': md_path, 'e': ['del', l]})
+        elif what == 'ns_append':
+            n = rand_native(rng, rng.choice([0, 1]))
+            ops.append(['ns_append', n]); model.append({'p': ns_path, 'e': ['append', py_enc_native(n).hex()]})
+        else:
+            ns = [rand_native(rng, rng.choice([0, 1])) for _ in range(rng.choice([0, 1, 2]))]
+            has_ns = True
+            ops.append(['ns_set', ns])
+            model.append({'p': [['t']], 'e': ['set', 1, (py_head(4, len(ns)) + b''.join(py_enc_native(x) for x in ns)).hex()]})
+    c['ops'], c['model'] = ops, model
+    return c
+
+
+def _native_nodes(t, path=()):
+    yield list(path), t
+    subs = t[2] if t[0] == 'nofk' else t[1] if t[0] in ('all', 'any') else []
+    for i, x in enumerate(subs):
+        yield from _native_nodes(x, path + (i,))
+
+
+def _native_cbor_path(t, path):
+    p = []
+    for i in path:
+        p += [['i', 2 if t[0] == 'nofk' else 1], ['i', i]]
+        t = (t[2] if t[0] == 'nofk' else t[1])[i]
+    return p, t
+
+
+def gen_seq_native(rng):
+    import copy
+    while True:
+        s = rand_native(rng, rng.choice([1, 1, 2]))
+        if s[0] in ('all', 'any', 'nofk') or rng.random() < 0.15:
+            break
+    c = {'k': 'seq', 'kind': 'native', 'origin': rng.choice(['direct', 'direct', 'decoded']), 's': copy.deepcopy(s)}
+    ops, model = [], []
+    for sk in seq_skeleton(rng, [0, 0, 1]):
+        if sk[0] != 'edit':
+            ops.append(list(sk)); model.append(None)
+            continue
+        path, _ = rng.choice(list(_native_nodes(s)))
+        cp, node = _native_cbor_path(s, path)
+        k = node[0]
+        if k == 'pk':
+            kh = rb(rng, 28)
+            node[1] = kh.hex()
+            ops.append(['n_set_kh', path, kh.hex()]); model.append({'p': cp + [['i', 1]], 'e': ['put', (py_head(2, 28) + kh).hex()]})
+        elif k in ('before', 'after'):
+            v = rand_nat(rng)
+            node[1] = v
+            ops.append(['n_set_slot', path, v]); model.append({'p': cp + [['i', 1]], 'e': ['put', py_head(0, v).hex()]})
+        else:
+            subs = node[2] if k == 'nofk' else node[1]
+            li = 2 if k == 'nofk' else 1
+            what = rng.choice(['append', 'append'] + (['child'] if subs else []) + (['n'] if k == 'nofk' else []))
+            if what == 'append':
+                x = rand_native(rng, rng.choice([0, 0, 1]))
+                subs.append(copy.deepcopy(x))
+                ops.append(['n_append', path, x]); model.append({'p': cp + [['i', li]], 'e': ['append', py_enc_native(x).hex()]})
+            elif what == 'child':
+                i = rng.randrange(len(subs))
+                x = rand_native(rng, rng.choice([0, 0, 1]))
+                subs[i] = copy.deepcopy(x)
+                ops.append(['n_child', path, i, x]); model.append({'p': cp + [['i', li], ['i', i]], 'e': ['put', py_enc_native(x).hex()]})
+            else:
+                v = rng.choice([0, 1, 2, len(subs), rand_nat(rng)])
+                node[1] = v
+                ops.append(['n_set_n', path, v]); model.append({'p': cp + [['i', 1]], 'e': ['put', py_head(0, v).hex()]})
+    c['ops'], c['model'] = ops, model
+    return c
+
+
+def gen_seq_datum(rng):
+    top = rng.choice(['DA', 'DB', 'DC'])
+    da = lambda: ['DA', rand_int_datum(rng), rb(rng, rng.choice([0, 5, 32, 64])).hex()]
+    if top == 'DA':
+        d = da()
+        # CTag 121 (CAi [a; b])
+        targets = [([], 'a', [['t'], ['i', 0]]), ([], 'b', [['t'], ['i', 1]])]
+    elif top == 'DB':
+        ks = sorted({rng.randrange(0, 40) for _ in range(rng.choice([0, 1, 2]))})
+        d = ['DB', da(), [rand_int_datum(rng) for _ in range(rng.choice([0, 1, 3]))], [[kk, rb(rng, 3).hex()] for kk in ks]]
+        # CTag 122 (CAi [x; l; d])
+        targets = [(['x'], 'a', [['t'], ['i', 0], ['t'], ['i', 0]]), (['x'], 'b', [['t'], ['i', 0], ['t'], ['i', 1]])]
+    else:
+        d = ['DC', rand_int_datum(rng), da()]
+        # CTag 102 (CA [CU 130; CAi [n; y]])
+        targets = [([], 'n', [['t'], ['i', 1], ['i', 0]]), (['y'], 'a', [['t'], ['i', 1], ['i', 1], ['t'], ['i', 0]]),
+                   (['y'], 'b', [['t'], ['i', 1], ['i', 1], ['t'], ['i', 1]])]
+    c = {'k': 'seq', 'kind': 'datum', 'origin': rng.choice(['direct', 'direct', 'decoded']), 'd': d}
+    ops, model = [], []
+    for sk in seq_skeleton(rng, [0, 1]):
+        if sk[0] != 'edit':
+            ops.append(list(sk)); model.append(None)
+            continue
+        objp, f, cp = rng.choice(targets)
+        if f == 'b':
+            b = rb(rng, rng.choice([0, 1, 28, 32, 64]))
+            ops.append(['d_set', objp, f, b.hex()]); model.append({'p': cp, 'e': ['put', (py_head(2, len(b)) + b).hex()]})
+        else:
+            v = rand_int_datum(rng)
+            ops.append(['d_set', objp, f, v]); model.append({'p': cp, 'e': ['put', py_enc_simple(['int', v]).hex()]})
+    c['ops'], c['model'] = ops, model
+    return c
+
+
+def gen_seq(rng):
+    r = rng.random()
+    return gen_seq_body(rng) if r < 0.55 else gen_seq_aux(rng) if r < 0.7 else gen_seq_native(rng) if r < 0.85 else gen_seq_datum(rng)
+
+
+MIX = [('seq', 220), ('tx', 260), ('datum', 220), ('aux', 140), ('build', 70), ('key', 130), ('native', 170), ('plutus', 110),
        ('addr', 90), ('finger', 80), ('gate', 260)]
 
 
 def gen_case(rng, kind):
+    if kind == 'seq':
+        return gen_seq(rng)
     if kind == 'tx':
         return {'k': 'tx', 'body': rand_body(rng), 'decoded': rng.random() < 0.4}
     if kind == 'datum':
@@ -1038,6 +1376,11 @@ def gen_case(rng, kind):
     raise ValueError(kind)
 
 
+def corpus_cases():
+    p = os.path.join(C.VERIF, 'corpus', 'C17.json')
+    return json.load(open(p))['cases'] if os.path.exists(p) else []
+
+
 def gen_cases(ctx, n):
     total = sum(w for _, w in MIX)
     cases = []
@@ -1045,7 +1388,7 @@ def gen_cases(ctx, n):
         for _ in range(max(1, n * w // total)):
             cases.append(gen_case(ctx.rng, kind))
     ctx.rng.shuffle(cases)
-    return cases
+    return [dict(c) for c in corpus_cases()] + cases
 
 
 # ================================================================ rendering
@@ -1089,6 +1432,8 @@ def table_and_case(c, r, g):
     k = c['k']
     T = set()
     fb = bytes.fromhex
+    if k == 'seq':
+        return None, seq_case(c, r, g)
     if k == 'tx':
         for sl in top_items(fb(r['tx']))[:1] + [fb(r['body'])]:
             T.add((32, sl)); T.add((g['tx_size'], sl))
@@ -1181,9 +1526,119 @@ def table_and_case(c, r, g):
     return T, lit
 
 
+
+# ---------------------------------------------------------------- operation sequences
+QKIND = {'body': 'QBody', 'aux': 'QAux', 'datum': 'QDatum', 'native': 'QNative'}
+
+
+def seq_cut_py(kind, cont):
+    """own cutter: the bytes of the object inside the shipped container (None when the container has another shape)"""
+    try:
+        if kind in ('body', 'aux'):
+            its = top_items(cont)
+            return its[0] if kind == 'body' else (its[3] if len(its) == 4 else None)
+        if cont[:1] != b'\xa1' or cont[1] != (1 if kind == 'native' else 4):
+            return None
+        i = 2
+        if cont[i:i + 3] == b'\xd9\x01\x02':
+            i += 3
+        if cont[i] != 0x81:
+            return None
+        e = item_end(cont, i + 1)
+        return bytes(cont[i + 1:e]) if e == len(cont) else None
+    except Exception:
+        return None
+
+
+def r_path(p):
+    return C.clist([f'PKey {C.cn(x[1])}' if x[0] == 'k' else f'PIdx {C.cnat(x[1])}' if x[0] == 'i' else 'PTag' for x in p])
+
+
+def seq_case(c, r, g):
+    """the whole `(tab, KSeq ...)` Coq expression of a sequence case.  Byte strings that occur several times (the
+    serializations of the successive states) are let-bound once and referred to by name; a shipped container is written
+    as  prefix ++ <state> ++ suffix  when (checked here) it contains the current serialization, literally otherwise."""
+    kind = c['kind']
+    fb = bytes.fromhex
+    spec_n, spec_pre = (28, b'\x00') if kind == 'native' else (32, b'')
+    g_n, g_pre = {'body': (g['tx_size'], b''), 'aux': (g['aux_size'], b''), 'datum': (g['datum_size'], b''),
+                  'native': (g['nscript_size'], g['pref_native'])}[kind]
+    names, order = {}, []
+
+    def blob(b):
+        b = bytes(b)
+        if b not in names:
+            names[b] = f'b{len(order)}'; order.append(b)
+        return names[b]
+
+    def lit(b):
+        return hx(bytes(b).hex())
+
+    cur = fb(r['init'])
+    init_name = blob(cur)
+    steps = []
+    for o, m, st in zip(c['ops'], c['model'], r['steps']):
+        after = fb(st['after'])
+        if o[0] == 'read':
+            cont = fb(st['cont'])
+            sl = seq_cut_py(kind, cont)
+            if sl is not None:
+                blob(sl)
+            i = cont.find(cur)
+            ce = lit(cont) if i < 0 else f'({lit(cont[:i])} ++ {blob(cur)} ++ {lit(cont[i + len(cur):])})%list'
+            steps.append(f'SRead {C.cnat(o[1])} {ce} {lit(fb(st["obs"]))}')
+        elif o[0] in ('reenc', 'copy', 'rewrap', 'neutral'):
+            steps.append({'reenc': 'SReenc', 'copy': 'SCopy', 'rewrap': 'SRewrap', 'neutral': 'SNeutral'}[o[0]] + ' ' + blob(after))
+        else:
+            e = m['e']
+            val = (e[-1] if e[-1] is not None else st['val']) if e[0] != 'del' else None
+            be = {'set': lambda: f'BSet {C.cn(e[1])} {lit(fb(val))}', 'del': lambda: f'BDel {C.cn(e[1])}',
+                  'append': lambda: f'BAppend {lit(fb(val))}', 'put': lambda: f'BPut {lit(fb(val))}'}[e[0]]()
+            steps.append(f'SEdit {r_path(m["p"])} ({be}) {blob(after)}')
+        cur = after
+    tab = []
+    for b in order:
+        for n, pre in {(spec_n, spec_pre), (g_n, g_pre)}:
+            msg = names[b] if not pre else f'({lit(pre)} ++ {names[b]})%list'
+            tab.append(f'({C.cnat(n)}, {msg}, {lit(b2(n, pre + b))})')
+    lets = ''.join(f'let {names[b]} := {lit(b)} in ' for b in order)
+    return f'({lets}({C.clist(tab)}, KSeq {QKIND[kind]} {init_name} {C.clist(steps)}))'
+
+
+def seq_stats(cases, results):
+    """what the generated sequences exercised (for the evidence)"""
+    st = {'ops': {}, 'read_edit_read': 0, 'reenc_changed_bytes': 0, 'copy_changed_bytes': 0, 'copy_total': 0,
+          'reenc_total': 0, 'by_kind': {}, 'by_origin': {}, 'reads': 0, 'length_hist': {}}
+    for c, r in zip(cases, results):
+        if c['k'] != 'seq' or 'steps' not in r:
+            continue
+        st['by_kind'][c['kind']] = st['by_kind'].get(c['kind'], 0) + 1
+        st['by_origin'][c['origin']] = st['by_origin'].get(c['origin'], 0) + 1
+        st['length_hist'][len(c['ops'])] = st['length_hist'].get(len(c['ops']), 0) + 1
+        cur, seen_read, changed_since = r['init'], False, False
+        rer = False
+        for o, s_ in zip(c['ops'], r['steps']):
+            st['ops'][o[0]] = st['ops'].get(o[0], 0) + 1
+            if o[0] == 'read':
+                st['reads'] += 1
+                if seen_read and changed_since:
+                    rer = True
+                seen_read = True
+            else:
+                if o[0] in ('reenc', 'copy'):
+                    st[o[0] + '_total'] += 1
+                    if s_['after'] != cur:
+                        st[o[0] + '_changed_bytes'] += 1
+                if s_['after'] != cur:
+                    changed_since = True
+            cur = s_['after']
+        st['read_edit_read'] += rer
+    return st
+
+
 HEADER = '''From Coq Require Import ZArith NArith List String.
 From Coq Require Import Init.Byte.
-From PyC Require Import Base Cbor Ids IdsOracle.
+From PyC Require Import Base Cbor Ids IdsSeq IdsOracle.
 Import ListNotations.
 Open Scope string_scope.
 '''
@@ -1203,6 +1658,15 @@ def skip_reason(c, r):
     """cases that are outside this property (recorded in a histogram, not evaluated)"""
     if 'decode_err' in r:
         return 'decode-error(C01/C03)'
+    if c['k'] == 'seq' and 'seq_err' in r:
+        # documented exclusions; any other exception in the middle of a sequence fails the run (see evaluate)
+        if r['op'] == 'reenc' or (r['op'] == 'init' and c['origin'] == 'decoded'):
+            return 'seq:decode-error(C01/C03)'
+        if r['op'] == 'init' and c['origin'] == 'builder':
+            return 'seq:build-error:' + r['seq_err']
+        if r.get('copied') and r['seq_err'] == 'ValueError' and 'NonEmptyOrderedSet cannot be empty' in r.get('detail', ''):
+            return 'seq:copy-defect(OrderedSet)'      # copy.deepcopy drops the elements of an OrderedSet (reported)
+        return None
     if c['k'] == 'build' and 'err' in r:
         return 'build-error:' + r['err']
     return None
@@ -1212,17 +1676,17 @@ def evaluate(cases, results, g, shard=None):
     mism, ofail, errs, missing, skipped = set(), set(), [], set(), {}
     lits = []
     for i, (c, r) in enumerate(zip(cases, results)):
-        if 'driver_error' in r:
+        sr = skip_reason(c, r)
+        if 'driver_error' in r or ('seq_err' in r and not sr):
             mism.add(i); ofail.add(i)
             continue
-        sr = skip_reason(c, r)
         if sr:
             skipped[sr] = skipped.get(sr, 0) + 1
             continue
         if c['k'] == 'gate' and c['pay'] != r['pay']:
             raise RuntimeError('gate: the driver did not use the payment credential of the case')
         T, lit = table_and_case(c, r, g)
-        lits.append((i, f'({r_tab(T)}, {lit})'))
+        lits.append((i, lit if T is None else f'({r_tab(T)}, {lit})'))
     shards, maps = [], []
     shard = shard or max(30, min(150, -(-len(lits) // C.NPROC)))
     for k in range(0, len(lits), shard):
@@ -1238,8 +1702,10 @@ def evaluate(cases, results, g, shard=None):
 
 
 def classify(c, r):
-    if 'driver_error' in r:
+    if 'driver_error' in r or 'seq_err' in r:
         return c['k'] + ':exception'
+    if c['k'] == 'seq':
+        return 'seq:' + c['kind']
     if c['k'] == 'gate':
         return 'gate:' + r['res'][0]
     if c['k'] == 'tx':
@@ -1256,8 +1722,10 @@ def classify(c, r):
 
 
 def nontrivial(c, r):
-    if 'driver_error' in r or skip_reason(c, r):
+    if 'driver_error' in r or 'seq_err' in r or skip_reason(c, r):
         return False
+    if c['k'] == 'seq':
+        return any(o[0] == 'read' for o in c['ops'])
     return True
 
 
@@ -1268,7 +1736,7 @@ def correspond(ctx, n=None):
             _, _, g, _ = extract()
         except Exception:
             g = dict(SPEC_FULL)     # translator failed (reported by check.py); tables for the specified constants only
-    n = n or ctx.n(1530, 30000)
+    n = n or ctx.n(1750, 34000)
     cases = gen_cases(ctx, n)
     results = C.run_impl('ids_driver', {'cases': cases})
     mism, ofail, missing, errs, skipped = evaluate(cases, results, g)
@@ -1306,17 +1774,25 @@ def correspond(ctx, n=None):
              'Plutus V1/V2/V3 script (+ plain bytes), script address on both networks with every staking part, CIP-14 '
              'fingerprint in three argument forms, add_script_input with right / wrong-language / one-bit-flipped / '
              'native-vs-Plutus-same-bytes offers through the own-script, argument, reference-UTxO and chain-context paths '
-             'with and without datum}; non-trivial = the library returned an identifier (or a gate decision) that was '
-             'compared inside coqc; distinct by hash of the case',
+             'with and without datum; a LIFE of one object (seq): transaction body inside a transaction (built directly / decoded '
+             '/ by TransactionBuilder), auxiliary data of three eras, nested native script, typed datum, through 3-9 operations '
+             'drawn from {read via each accessor, set / delete keyed field, append output / input, adjust a coin in place, replace '
+             'an output, metadata label set / delete, native scripts appended / attached, native-script node edits, datum field '
+             'assignment, re-encode, deep copy, re-wrap, re-sign}, always ending with a read}; non-trivial = the library returned an '
+             'identifier (or a gate decision) that was compared inside coqc (seq: at least one read); distinct by hash of the case',
         samples=[cases[0], cases[len(cases) // 2]],
         kind_histogram=hist, region_histogram=regions, gate_outcomes=gate_hist, decoded_tx_same_bytes=same,
+        sequences=seq_stats(cases, results),
         skipped=skipped, reported_regions_seen=sorted({f['region'] for f in known_local}),
         regenerated_constants={k: (v.hex() if isinstance(v, bytes) else v) for k, v in g.items()},
         compared='oracle: library identifier = specified digest (table lookup) of the bytes cut from the library\'s own '
                  'serialization (tx array, witness set, outputs, multi-asset key), gate decision sound w.r.t. the specified '
                  'script hash, body.auxiliary_data_hash = digest of the 4th element of the signed transaction; '
                  'correspondence: the same with the model over the regenerated constants, model encoder = library bytes, '
-                 'model gate decision (incl. recorded script and reference input) = library decision',
+                 'model gate decision (incl. recorded script and reference input) = library decision; sequences: oracle = every '
+                 'identifier read equals the specified digest of the object bytes cut from the container shipped at that moment; '
+                 'correspondence = state machine (regenerated memoisation flags) gives the same serialization after every step and '
+                 'the same answer at every read',
         mismatches=[pack(i) for i in sorted(mism)[:20]],
         oracle_fail=of[:50],
     )
